@@ -25,6 +25,8 @@ environment assumptions - NoLag (the chain moves only when every subscriber has 
 QuietSub (nobody subscribes between a Store and its sends), ReorgPrio (a reorg notice is handled before a
 head sent after it) - and TLC exhibits the failure when any ONE is dropped (expected-violation runs).
 (3) FixL1None: subscribeEvents (v9, v10) answers with an internal error on a node without an L1 head.
+FixL1Order: Blockchain.SetL1Head announces the L1 head on the feed before it writes it; the status
+subscription, which answers the event by reading the database, misses ACCEPTED_ON_L1 (L1Reported).
 
 Binding: TestSubsProbe reproduces every such failure ON THE REAL handlers (directed scripts, evaluated
 with a Go twin of the client fold) and reports each under its own key (known_findings.json decides
@@ -49,6 +51,7 @@ from vlib import log
 
 FAMILY = "subs"
 SWITCH_KEY = "subs:events:internal-error-without-l1-head"
+ORDER_KEY = "subs:status:accepted-on-l1-missed:l1-head-event-handled-before-database-write"
 
 
 def cfg_text(name, fix_l1none):
@@ -76,6 +79,8 @@ def plan(thorough):
         ("Subs_events_nolag.cfg", "events v10, NoLag dropped: EventsComplete must fail", ("EventsComplete",), False),
         ("Subs_status_current.cfg", "status: StatusCurrent must fail (no re-evaluation after a reorg notice)", ("StatusCurrent",), False),
         ("Subs_events_nol1.cfg", "as coded without an L1 head: NoInternalError must fail", ("NoInternalError",), False),
+        ("Subs_status_l1order.cfg", "SetL1Head feed first, database second: L1Reported must fail", ("L1Reported",), False),
+        ("Subs_status_l1order_fixed.cfg", "FixL1Order: ACCEPTED_ON_L1 is reported (and is last)", None, False),
     ]
     t = [
         ("Subs_events_strong.cfg", "NoLag+QuietSub+ReorgPrio: events v10 - exactly the matching events, once, in order", None, False),
@@ -130,7 +135,7 @@ def absorb(ctx, res, test):
     ctx.absorb(res, "subs", test)
 
 
-def sim_cfg(ver, fix_l1none, start_l1):
+def sim_cfg(ver, fix_l1none, start_l1, fix_l1order):
     t = cfg_text("Subs_sim.cfg", fix_l1none)
     t = re.sub(r"Ver = \d+", "Ver = %d" % ver, t)
     if ver == 8:
@@ -139,6 +144,10 @@ def sim_cfg(ver, fix_l1none, start_l1):
         t = t.replace("StartAtL1 = 0", "StartAtL1 <- NoL1")
     if fix_l1none:
         t = t.replace("FixL1None = FALSE", "FixL1None = TRUE")
+    if fix_l1order:
+        t = t.replace("FixL1Order = FALSE", "FixL1Order = TRUE")
+    if ("FixL1Order = TRUE" in t) != bool(fix_l1order):
+        raise vlib.Broken("Subs_sim.cfg no longer has the FixL1Order constant this check rewrites")
     if "Ver = %d" % ver not in t or ("FixL1None = TRUE" in t) != bool(fix_l1none):
         raise vlib.Broken("Subs_sim.cfg no longer has the constants this check rewrites")
     return t
@@ -174,6 +183,13 @@ def run(ctx):
     log("probe: %d deviations present, %d absent; subscribeEvents without an L1 head %s" % (
         len(present), len(absent), "is served (FixL1None model)" if fix_l1none else "fails with an internal error (as-coded model)"))
     ctx.coverage["model_switch_FixL1None"] = fix_l1none
+    ov = [k for k in present + absent if k.startswith(ORDER_KEY)]
+    if not ov:
+        raise vlib.Broken("the probe did not decide the FixL1Order switch")
+    fix_l1order = not any(k in present for k in ov)
+    log("probe: SetL1Head %s" % ("writes the database before it announces the head (FixL1Order model)" if fix_l1order
+                                 else "announces the head on the feed before it writes the database (as-coded model)"))
+    ctx.coverage["model_switch_FixL1Order"] = fix_l1order
     # expectations come from known_findings.json, never from the tree: a listed-known deviation that is gone is a NOTE
     for k in ctx.known:
         if k.get("status") == "known" and not any(vlib.key_matches(k["key"], p) for p in present):
@@ -192,9 +208,9 @@ def run(ctx):
         beh = []
         for j in range(runs):
             beh += ctx.tlc_simulate(FAMILY, "SubsMBT.tla", "sim.cfg", depth=depth, seed=ctx.seed * 1000 + i * 10 + j,
-                                    files={"sim.cfg": sim_cfg(ver, fix_l1none, l1)}, timeout=900)
+                                    files={"sim.cfg": sim_cfg(ver, fix_l1none, l1, fix_l1order)}, timeout=900)
         nb += len(beh)
-        res = ctx.run_engine(binary, "TestSubsReplay", {"ver": ver, "initlen": 2, "startl1": l1, "behaviours": beh}, timeout=1500)
+        res = ctx.run_engine(binary, "TestSubsReplay", {"ver": ver, "initlen": 2, "startl1": l1, "fixl1order": fix_l1order, "behaviours": beh}, timeout=1500)
         if res.get("replayed", 0) < 0.9 * len(beh) and not res.get("divergences"):
             raise vlib.Broken("engine replayed too little: %s of %s" % (res.get("replayed"), len(beh)))
         absorb(ctx, res, "TestSubsReplay")
